@@ -55,16 +55,7 @@ theorem Lin.grow {cfg : Cfg} {s t : State} {i : Nat} {r : Res} (h : Lin cfg s i 
   obtain ⟨pre, post, h1, h2⟩ := h
   exact ⟨pre, post ++ [j], by simp [hl, h1], h2⟩
 
-theorem Lin.same {cfg : Cfg} {s t : State} {i : Nat} {r : Res} (h : Lin cfg s i r)
-    (hl : t.log = s.log) : Lin cfg t i r := by
-  obtain ⟨pre, post, h1, h2⟩ := h
-  exact ⟨pre, post, by simp [hl, h1], h2⟩
-
-theorem snoc_inj {l₁ l₂ : List Nat} {a b : Nat} (h : l₁ ++ [a] = l₂ ++ [b]) : l₁ = l₂ ∧ a = b := by
-  have := List.append_inj' h rfl
-  exact ⟨this.1, by simpa using this.2⟩
-
-/-- steps that touch neither the table nor the lock nor the log keep every per-thread clause of other threads -/
+/-- the invariant is inductive -/
 theorem inv_step {cfg : Cfg} (safe : cfg.readerLocks = true) {s t : State} (h : Inv cfg s) (st : Step cfg s t) : Inv cfg t := by
   obtain ⟨hfree, hrx, hidle, hnd, hwc, hins, hwu, hrr, hru, hdn⟩ := h
   cases st with
